@@ -66,7 +66,7 @@ class Run:
         """Record one obligation of the current rule. `construct` must identify the code construct
         without line numbers (def-path + role); `where` is file:line for the reader."""
         rule = rule or self.cur_rule
-        key = "%s|%s" % (rule, construct)
+        key = re.sub(r"\{closure#\d+\}", "{closure}", "%s|%s" % (rule, construct))
         o = Obligation(rule, key, bool(ok), where, what, detail, reason if not ok else None)
         self.obs.append(o)
         return bool(ok)
